@@ -124,6 +124,7 @@ func c20(args []string) error {
 	r := rand.New(rand.NewSource(g.seed))
 	w := newCaseWriter("C20")
 	stats_ := map[string]int{}
+	hungTotal := 0 // IncompleteGamma calls that did not return
 	var certs bytes.Buffer
 	ncert, certFiles := 0, 0
 	certHeader := "From Coq Require Import Reals List.\nFrom Interval Require Import Tactic.\nImport ListNotations.\nFrom GA.Model Require Import Weights.\nFrom GA.Corr Require Import C20Cert.\nLocal Open Scope R_scope.\n"
@@ -380,16 +381,21 @@ func c20(args []string) error {
 				// the series / continued fraction terminate: a call that does not return within 5 s is recorded as -1,
 				// a value outside [0,1] that both oracles reject (the spinning goroutine is abandoned)
 				xk := xs[k].f()
+				if hungTotal > 5 { // enough evidence: no more calls that may spin
+					out[k] = -1
+					continue
+				}
 				done := make(chan float64, 1)
 				go func() { done <- models.IncompleteGamma(xk, alpha.f(), lg) }()
 				select {
 				case v := <-done:
 					out[k] = v
-				case <-time.After(5 * time.Second):
+				case <-time.After(3 * time.Second):
 					out[k] = -1
 					hung++
+					hungTotal++
 				}
-				if hung > 2 {
+				if hung > 1 || hungTotal > 5 {
 					break
 				}
 			}
